@@ -40,14 +40,21 @@ def doms(tier, kind):
 
 
 class Alloc:
-    def __init__(self, tier):
+    """allocator of scripted calls; `focus` (thorough tier): only the statement kind in focus gets its
+    full value set, the others their representative (quick) set, so that the product stays explorable"""
+
+    def __init__(self, tier, focus=None):
         self.k = 0
         self.dom = {}
         self.tier = tier
+        self.focus = focus
 
     def call(self, kind, dom=None):
         self.k += 1
-        self.dom[self.k] = list(dom if dom is not None else doms(self.tier, kind))
+        tier = self.tier
+        if self.focus is not None and kind != self.focus:
+            tier = "quick"
+        self.dom[self.k] = list(dom if dom is not None else doms(tier, kind))
         return call(self.k)
 
 
@@ -91,19 +98,21 @@ def c01_f1(tier):
         for sub in itertools.combinations(KINDS, r):
             if "content" in sub and "replace" in sub:
                 continue
-            al = Alloc(tier)
-            items = [Text("pre\n  ")]
-            if "case" in sub:
-                items.append(Open(sw=al.call("switch"), name="section"))
-                items.append(Text("\n  "))
-            items.append(element(al, sub))
-            items.append(probe())
-            items.append(CLOSE)
-            if "case" in sub:
+            foci = [None] if tier == "quick" else (list(sub) or [None])
+            for focus in foci:
+                al = Alloc(tier, focus)
+                items = [Text("pre\n  ")]
+                if "case" in sub:
+                    items.append(Open(sw=al.call("switch"), name="section"))
+                    items.append(Text("\n  "))
+                items.append(element(al, sub))
+                items.append(probe())
                 items.append(CLOSE)
-            items.append(Text("post"))
-            items.append(probe())
-            progs.append(program(items, al.dom, fam="C01.F1:" + "+".join(sub)))
+                if "case" in sub:
+                    items.append(CLOSE)
+                items.append(Text("post"))
+                items.append(probe())
+                progs.append(program(items, al.dom, fam="C01.F1:" + "+".join(sub) + (" focus=" + focus if focus else "")))
     return progs
 
 
